@@ -26,6 +26,9 @@
 #ifndef C09_ASAN
 #define C09_ASAN 0
 #endif
+#ifndef C09_HEAVY	/* 1: this configuration runs the full-size enumerations in the thorough tier */
+#define C09_HEAVY 0
+#endif
 
 static tc_t *TC[64];
 static tc_t *
@@ -943,9 +946,10 @@ reuse_observe(const char *cname) {
 
 int
 main(int argc, char **argv) {
-	int light = !0;
+	int light, big;
 	vh_init(argc, argv);
-	light = !vh_thorough;
+	big = (vh_thorough && C09_HEAVY);
+	light = !big;
 #if C09_ASAN
 	/* ASan binaries: everything on a small scale (exact-size heap buffers), plus the size boundaries */
 	roundtrip_all("s199"); roundtrip_all("c211h2"); roundtrip_all("w263m3"); roundtrip_all("w269h2");
@@ -967,7 +971,7 @@ main(int argc, char **argv) {
 	import_all_1byte("s229a0", light);	/* p = 5 (mod 8) */
 	import_all_1byte("s113m3", light);	/* p = 1 (mod 16): Tonelli-Shanks; a = -3 */
 	import_all_1byte("c223h4n", light);	/* cofactor 4, three points of order 2 */
-	if (vh_thorough) {
+	if (big) {
 		import_all_1byte("s251", 0);	/* p = 3 (mod 4) */
 		import_all_1byte("c211h2", 0);
 		import_all_1byte("c239h4c", 0);
@@ -975,7 +979,7 @@ main(int argc, char **argv) {
 	}
 	import_all_2byte("w269h2", light);	/* p = 5 (mod 8), cofactor 2 */
 	import_all_2byte("w401", light);	/* p = 1 (mod 16): Tonelli-Shanks */
-	if (vh_thorough) {
+	if (big) {
 		import_all_2byte("w263m3", 0);
 		import_all_2byte("w1021", 1);
 		import_all_2byte("w65519h4", 1);
@@ -984,12 +988,12 @@ main(int argc, char **argv) {
 	/* part K, P */
 	keygen_all("s199", 0); keygen_all("s251", 0); keygen_all("c223h4n", 0); keygen_all("w401", light); keygen_all("w269h2", light);
 	recover_all("s199", 0); recover_all("s251", 0); recover_all("c211h2", 0); recover_all("w401", 0); recover_all("w65519", 1);
-	if (vh_thorough) { keygen_all("w65519", 1); keygen_all("s113m3", 0); recover_all("w65519h4", 1); recover_all("s113m3", 0); }
+	if (big) { keygen_all("w65519", 1); keygen_all("s113m3", 0); recover_all("w65519h4", 1); recover_all("s113m3", 0); }
 	/* part D */
 	dh_all("s199", light); dh_all("c211h2", light); dh_all("c223h4n", 0); dh_all("c239h4c", 0); dh_all("w269h2", light);
-	if (vh_thorough) { dh_all("s251", 0); dh_all("s113m3", 0); dh_all("w401", 0); dh_all("w263m3", 0); }
+	if (big) { dh_all("s251", 0); dh_all("s113m3", 0); dh_all("w401", 0); dh_all("w263m3", 0); }
 	dhb_all("s199", light); dhb_all("c223h4n", light); dhb_all("w269h2", light); dhb_all("w65519", 1);
-	if (vh_thorough) { dhb_all("c211h2", 0); dhb_all("w401", 0); dhb_all("w65519h4", 1); }
+	if (big) { dhb_all("c211h2", 0); dhb_all("w401", 0); dhb_all("w65519h4", 1); }
 	reuse_observe("s199"); reuse_observe("w401");
 #endif
 #ifndef GC_DISABLE
